@@ -260,6 +260,7 @@ def gen_plan(seed, tier):
          # synchronously, i.e. the next read is handed to the worker while
          # the handler of the last delivered message is still on the stack
          "loopback": side == "sw" and r.chance(0.25)}
+  cfg["talk_first"] = side == "sw" and Rng(mix(seed, "first")).chance(0.3)
   if huge and cfg["recv_mode"] == "dribble":
     cfg["recv_mode"] = "choose"     # 64 KiB one byte per cycle: too slow
   # steps: one per message (so the minimiser can drop messages); cuts are
@@ -415,16 +416,24 @@ def _drive(sim, plan):
   else:
     world = SWWorld(sim, {"nports": 3, "max_buffers": 0})
     got = []
-    world.boot_hook = None
+
+    def on_switch(sw):
+      orig = sw.rx_message
+
+      def rec(connection, msg):
+        got.append((msg.header_type, msg.xid))
+        sim.ev("deliver", msg.header_type, msg.xid)
+        return orig(connection, msg)
+      sw.rx_message = rec
+    world.on_switch = on_switch
+    first_sent = False
+    if cfg.get("talk_first") and not cfg.get("loopback") and total:
+      # the controller writes the moment it accepts: the first segment is
+      # already there when the switch's worker first looks at its socket
+      world.talk_first = stream[:(cuts + [total])[0]]
+      first_sent = True
     world.boot()
     sw = world.switch
-    orig = sw.rx_message
-
-    def rec(connection, msg):
-      got.append((msg.header_type, msg.xid))
-      sim.ev("deliver", msg.header_type, msg.xid)
-      return orig(connection, msg)
-    world.worker.connection.set_message_handler(rec)
     srv = world.ctl.peer     # the switch's end of the connection
 
     def delivered():
@@ -455,7 +464,10 @@ def _drive(sim, plan):
     d = delays[i]
     if d == 0 and i > 0:
       sim.probes["coalesced"] += 1
-    push([(d, seg)])
+    if i == 0 and side == "sw" and first_sent:
+      pass                      # (went out at accept time)
+    else:
+      push([(d, seg)])
     if d:
       sim.advance(S.TICK * d)
     else:
